@@ -293,7 +293,7 @@ def main():
         sys.path.insert(0, os.path.dirname(os.path.abspath(__file__)))
         import prelude_kernel
         kviol, kev = prelude_kernel.run(tier)
-        print('C06 %s (prelude kernel): %s' % (tier, '; '.join('%s: %s in %.1fs' % ('int64' if q.get('signed') else 'uint64', q.get('result'), q.get('solver_s', 0)) for q in kev['queries'])))
+        print('C06 %s (prelude kernel): %s' % (tier, '; '.join('%s %s: %s in %.1fs' % (q.get('helper'), 'int64' if q.get('signed') else 'uint64', q.get('result'), q.get('solver_s', 0)) for q in kev['queries'])))
 
     def post(ev, rep):
         if kev:
@@ -308,7 +308,7 @@ def main():
                                z3_timeout_ms=10000 if tier == 'quick' else 60000)
     for v in kviol:
         print('VIOLATION property=C06 replay=%s' % v['where'])
-        print('  float32(%s(%d)): go prints bits %s, gopherjs+node %s (model of the bit-vector kernel of $flatten64ToFloat32)' % ('int64' if v['signed'] else 'uint64', v['x'], v['go'], v['js']))
+        print('  %s(%s(%d)): go prints bits %s, gopherjs+node %s (model of the bit-vector kernel of %s)' % (v['ft'], 'int64' if v['signed'] else 'uint64', v['x'], v['go'], v['js'], v['helper']))
         rc = 1
     return rc
 
